@@ -950,6 +950,86 @@ func litParamArgs(body *ast.BlockStmt, info *types.Info, v *types.Var) []*ast.Fu
 	return lits
 }
 
+// rangeOverLits: v is the value variable of a range over a list of function literals - the
+// composite literal itself or a local variable bound once to it (a table of checks run in order).
+func rangeOverLits(body *ast.BlockStmt, info *types.Info, v *types.Var) []*ast.FuncLit {
+	var lits []*ast.FuncLit
+	litsOf := func(e ast.Expr) []*ast.FuncLit {
+		cl, ok := ast.Unparen(e).(*ast.CompositeLit)
+		if !ok || len(cl.Elts) == 0 {
+			return nil
+		}
+		var out []*ast.FuncLit
+		for _, el := range cl.Elts {
+			if kv, isKV := el.(*ast.KeyValueExpr); isKV {
+				el = kv.Value
+			}
+			fl, isLit := ast.Unparen(el).(*ast.FuncLit)
+			if !isLit {
+				return nil
+			}
+			out = append(out, fl)
+		}
+		return out
+	}
+	ast.Inspect(body, func(n ast.Node) bool {
+		rs, ok := n.(*ast.RangeStmt)
+		if !ok || rs.Value == nil {
+			return true
+		}
+		id, ok := rs.Value.(*ast.Ident)
+		if !ok || info.Defs[id] != v {
+			return true
+		}
+		if l := litsOf(rs.X); l != nil {
+			lits = l
+			return true
+		}
+		xid, ok := ast.Unparen(rs.X).(*ast.Ident)
+		if !ok {
+			return true
+		}
+		xo := info.Uses[xid]
+		// the list variable: bound exactly once, to a literal of function literals, never indexed for writing
+		nbind := 0
+		var found []*ast.FuncLit
+		okAll := true
+		ast.Inspect(body, func(m ast.Node) bool {
+			switch x := m.(type) {
+			case *ast.AssignStmt:
+				for i, l := range x.Lhs {
+					if lid, isId := l.(*ast.Ident); isId && (info.Defs[lid] == xo || info.Uses[lid] == xo) {
+						nbind++
+						if len(x.Rhs) == len(x.Lhs) {
+							found = litsOf(x.Rhs[i])
+						}
+					}
+					if ix, isIx := l.(*ast.IndexExpr); isIx {
+						if bid, isId := ast.Unparen(ix.X).(*ast.Ident); isId && info.Uses[bid] == xo {
+							okAll = false
+						}
+					}
+				}
+			case *ast.ValueSpec:
+				for i, nm := range x.Names {
+					if info.Defs[nm] == xo {
+						nbind++
+						if i < len(x.Values) {
+							found = litsOf(x.Values[i])
+						}
+					}
+				}
+			}
+			return true
+		})
+		if nbind == 1 && okAll && found != nil {
+			lits = found
+		}
+		return true
+	})
+	return lits
+}
+
 // funcVarLits: every assignment to the local function variable v (in the
 // function that declares it) is a function literal; returns them.
 func (b *Builder) funcVarLits(v *types.Var) []*ast.FuncLit {
@@ -974,6 +1054,9 @@ func (b *Builder) funcVarLits(v *types.Var) []*ast.FuncLit {
 	info := fs.Pkg.TypesInfo
 	if pl := litParamArgs(fs.Decl.Body, info, v); pl != nil {
 		return pl
+	}
+	if rl := rangeOverLits(fs.Decl.Body, info, v); rl != nil {
+		return rl
 	}
 	var lits []*ast.FuncLit
 	ok := true
